@@ -34,8 +34,8 @@ STUBS = ['FakeFS: rename and unlink atomic, a chunk handed to aio_write is in '
 ASSUMPTIONS = ['tmp_dir is on the same file system (rename atomic)',
                'one storage operation at a time (overlap is C15)']
 CELL_BUDGET_S = {'quick': 240, 'thorough': 2400}
-SAMPLE_P = 0.002
-MAX_WITNESSES = 3
+SAMPLE_P = 0.02
+MAX_WITNESSES = 6
 OPS = ['write', 'increment_attempts', 'set_timestamp', 'mark', 'remove']
 RC = ['a@x', 'b@x', 'c@y']
 
